@@ -40,7 +40,8 @@ def cubicSolve (a b c d : Cx K) : Array (Cx K) :=
     #[r, r, r]
   else
     let sq := csqrt (mulR a (-(ofNat 27 : K)) * a * dis)
-    let base := divRT (if Cx.lt d1 0 then d1 - sq else d1 + sq) (ofNat 2)
+    -- the sign that avoids cancellation: |d1 ± sq|² = |d1|² + |sq|² ± 2 Re(conj d1 · sq)
+    let base := divRT (if ScalarExt.lt (conj d1 * sq).re 0 then d1 - sq else d1 + sq) (ofNat 2)
     let k := cpow base ⟨ofNat 1 / ofNat 3, 0⟩
     let r0 := divT (-(b + k + divT d0 k)) (nmul 3 a)
     let u : Cx K := ⟨-half, sqrt (ofNat 3) / ofNat 2⟩
